@@ -12,6 +12,11 @@ Pow2(k) == 2^k
 \* sequence helpers ---------------------------------------------------------
 Take(s, n) == SubSeq(s, 1, Min2(n, Len(s)))
 Drop(s, n) == SubSeq(s, n + 1, Len(s))
+\* first 64 elements (verdict details are kept short)
+Cut(s) == IF Len(s) > 64 THEN SubSeq(s, 1, 64) ELSE s
+\* eager sequence <<f(1), ..., f(n)>> (TLC evaluates [i \in 1..n |-> e] lazily and re-evaluates
+\* e on every access; tables and hot accumulators must be materialised tuples)
+MkSeq(n, f(_)) == FoldLeft(LAMBDA acc, i : Append(acc, f(i)), <<>>, [i \in 1..n |-> i])
 Rep(x, n)  == [i \in 1..n |-> x]
 Rev(s)     == [i \in 1..Len(s) |-> s[Len(s) + 1 - i]]
 Concat(ss) == FoldLeft(LAMBDA a, b : a \o b, <<>>, ss)
